@@ -135,11 +135,24 @@ class Ctx:
         e["TMPDIR"] = self.sub("tmp")
         if env:
             e.update(env)
+        pr = subprocess.Popen([self.harness(race)] + list(args), env=e, stdout=subprocess.PIPE, stderr=subprocess.PIPE,
+                              stdin=subprocess.PIPE if input is not None else None, text=True, cwd=self.scratch)
         try:
-            p = subprocess.run([self.harness(race)] + list(args), env=e, capture_output=True,
-                               text=True, timeout=timeout, input=input, cwd=self.scratch)
+            so, se = pr.communicate(input=input, timeout=timeout)
+            p = subprocess.CompletedProcess(pr.args, pr.returncode, so, se)
         except subprocess.TimeoutExpired:
-            raise Undecided("harness %s timed out after %ss" % (args[:2], timeout))
+            # SIGQUIT makes the Go runtime print every goroutine's stack: keep it, a hang has to be explainable
+            import signal
+            pr.send_signal(signal.SIGQUIT)
+            try:
+                so, se = pr.communicate(timeout=30)
+            except subprocess.TimeoutExpired:
+                pr.kill()
+                so, se = pr.communicate()
+            dump = os.path.join(SCRATCH_BASE, "hang-%s-%s-%d.txt" % (self.pid, args[0], int(time.time())))
+            with open(dump, "w") as f:
+                f.write(se or "")
+            raise Undecided("harness %s timed out after %ss (goroutine dump: %s)" % (args[:2], timeout, dump))
         if check and p.returncode != 0:
             raise Undecided("harness %s failed rc=%d:\n%s\n%s" % (args[:2], p.returncode, p.stdout[-3000:], p.stderr[-6000:]))
         return p
